@@ -598,8 +598,66 @@ class C05(WMode):
 # ==================================================================================
 # C09 — merging count-min sketches adds the counts cell by cell
 # ==================================================================================
+_dec_tables = {}
+
+
+def decode_table(base, nr, maxval):
+    key = (base, nr, maxval)
+    t = _dec_tables.get(key)
+    if t is None:
+        if len(_dec_tables) > 8:
+            _dec_tables.clear()
+        c = np.arange(maxval + 1, dtype=np.float64)
+        with np.errstate(over="ignore"):
+            t = np.where(c <= nr, c, (np.power(base, np.maximum(c - nr, 0.0)) - 1.0) / (base - 1.0) + nr)
+        _dec_tables[key] = t
+    return t
+
+
 class C09Checker(Checker):
     prop = "C09"
+
+    def check_log_cells(self, w, sk, A, B, R):
+        """Vectorised per-cell spec of the statement for log counters."""
+        base, nr, mx = float(sk.base), int(sk.num_reserved), int(sk.uint_maxval)
+        mc = float(int(sk.max_count))
+        dec = decode_table(base, nr, mx)
+        a, b, x = A.astype(np.int64), B.astype(np.int64), R.astype(np.int64)
+        v = dec[a] + dec[b]
+
+        def first(mask):
+            r, c = [int(t[0]) for t in np.nonzero(mask)]
+            return r, c, int(a[r, c]), int(b[r, c]), int(x[r, c]), float(v[r, c])
+
+        bad = x < np.maximum(a, b)
+        if bad.any():
+            r, c, ai, bi, xi, vi = first(bad)
+            self.fail("merged_counter_below_input", f"cell[{r},{c}]: merge({ai},{bi}) -> {xi}")
+        low = v <= nr
+        bad = low & (x != v.astype(np.int64))
+        if bad.any():
+            r, c, ai, bi, xi, vi = first(bad)
+            self.fail("log_reserved_range_not_exact_sum", f"cell[{r},{c}]: merge({ai},{bi}) -> {xi}, expected {int(vi)}")
+        sat = (~low) & (v >= mc)
+        bad = sat & (x != mx)
+        if bad.any():
+            r, c, ai, bi, xi, vi = first(bad)
+            self.fail("log_not_saturated_at_max_count", f"cell[{r},{c}]: merge({ai},{bi}) -> {xi}, decoded sum {vi} >= max_count {mc}")
+        if sat.any():
+            w.probes["merge_saturated_cell"] += int(sat.sum())
+        mid = (~low) & (~sat)
+        if mid.any():
+            hi = np.clip(np.searchsorted(dec, v, side="right"), 1, mx)
+            lo = hi - 1
+            best = np.minimum(np.abs(dec[lo] - v), np.abs(dec[hi] - v))
+            got = np.abs(dec[np.clip(x, 0, mx)] - v)
+            bad = mid & (got > best * (1 + 1e-9) + 1e-9 * np.maximum(v, 1.0))
+            if bad.any():
+                r, c, ai, bi, xi, vi = first(bad)
+                near = int(lo[r, c]) if abs(dec[lo[r, c]] - vi) <= abs(dec[hi[r, c]] - vi) else int(hi[r, c])
+                self.fail("log_not_nearest_counter", f"cell[{r},{c}]: merge({ai},{bi}) -> {xi} decoding to {float(dec[xi])!r}; decoded sum {vi!r}; counter {near} decodes to {float(dec[near])!r} (nearer)")
+            w.probes["merge_cells_in_log_range"] += int(mid.sum())
+        w.probes["log_pairs_checked"] += int(a.size)
 
     def after(self, w, ev, ctx, info):
         if ev["op"] != "deliver" or info is None:
@@ -622,34 +680,7 @@ class C09Checker(Checker):
             if (want == U32MAX).any():
                 w.probes["merge_saturated_cell"] += 1
         else:
-            ref = LogRef(float(sk.base), int(sk.num_reserved), int(sk.uint_maxval))
-            mc = float(int(sk.max_count))
-            nr = ref.nr
-            seen = ctx_pairs = set()
-            d, wd = A.shape
-            for r in range(d):
-                for c in range(wd):
-                    a, b, x = int(A[r, c]), int(B[r, c]), int(R[r, c])
-                    if (a, b) in seen:
-                        pass
-                    seen.add((a, b))
-                    v = ref.decode(a) + ref.decode(b)
-                    if x < max(a, b):
-                        self.fail("merged_counter_below_input", f"cell[{r},{c}]: merge({a},{b}) -> {x}")
-                    if v <= nr:
-                        if x != int(v):
-                            self.fail("log_reserved_range_not_exact_sum", f"cell[{r},{c}]: merge({a},{b}) -> {x}, expected {int(v)}")
-                    elif v >= mc:
-                        if x != ref.maxval:
-                            self.fail("log_not_saturated_at_max_count", f"cell[{r},{c}]: merge({a},{b}) -> {x}, decoded sum {v} >= max_count {mc}")
-                        w.probes["merge_saturated_cell"] += 1
-                    else:
-                        if not ref.nearest_ok(x, v):
-                            self.fail("log_not_nearest_counter", f"cell[{r},{c}]: merge({a},{b}) -> {x} decoding to {ref.decode(x)}; decoded sum {v}")
-            w.probes["log_pairs_checked"] += len(seen)
-            self.pairs = getattr(self, "pairs", set())
-            if len(self.pairs) < 200000:
-                self.pairs |= seen
+            self.check_log_cells(w, sk, A, B, R)
         # commutativity, neutral element (on clones, outside the history)
         X = make_sketch(w.cfg)
         Y = make_sketch(w.cfg)
@@ -700,6 +731,8 @@ class C09(WMode):
             cfg.update(width=256, depth=256, n_nodes=2, n_events=0, sub="all_pairs")
         elif fam == "log16" and r < 0.02:
             cfg.update(width=256, depth=256, n_nodes=2, n_events=0, sub="all_vs_empty")
+        elif fam in ("log16", "log8") and r < (0.10 if fam == "log16" else 0.05):
+            cfg.update(width=256, depth=256, n_nodes=2, n_events=0, sub="random_pairs", gseed=rng.getrandbits(31))
         elif r < 0.6:
             cfg["sub"] = "injected"
         w = hist_weights(work=45, disk=False)
@@ -742,6 +775,15 @@ class C09(WMode):
                     {"op": "send", "src": 1, "dst": 0, "kind": "live", "id": 10 ** 6}, {"op": "deliver", "id": 10 ** 6, "via": 0},
                     {"op": "inject", "node": 0, "grid": "zero"}, {"op": "inject", "node": 1, "grid": "seq"},
                     {"op": "send", "src": 1, "dst": 0, "kind": "file", "id": 10 ** 6 + 1}, {"op": "deliver", "id": 10 ** 6 + 1, "via": 0}]
+        if sub == "random_pairs":
+            g = w.cfg["gseed"]
+            evs = []
+            for rep in range(3):
+                evs += [{"op": "inject", "node": 0, "grid": "rand", "gseed": g + 2 * rep, "gdist": rng.choice(["log", "uniform", "log"])},
+                        {"op": "inject", "node": 1, "grid": "rand", "gseed": g + 2 * rep + 1, "gdist": rng.choice(["log", "uniform", "low"])},
+                        {"op": "send", "src": 1, "dst": 0, "kind": "live", "id": 10 ** 6 + rep},
+                        {"op": "deliver", "id": 10 ** 6 + rep, "via": 0}]
+            return evs
         evs = []
         for mid in list(w.msgs)[:4]:
             evs.append({"op": "deliver", "id": mid, "via": 0})
